@@ -20,7 +20,14 @@ use crate::spec::{self, pf, FReq, Region, ReplyRule};
 
 fn adversarial(t: &mut Tape, nrings: u32, mem: &[Region]) -> FReq {
     use FReq::*;
-    let idx = |t: &mut Tape| match t.draw(5) {
+    let idx = |t: &mut Tape| match t.draw(9) {
+        0..=4 => t.draw(nrings as u64) as u32,
+        5 => nrings,
+        6 => 255,
+        7 => u32::MAX,
+        _ => t.lattice32(),
+    };
+    let _unused = |t: &mut Tape| match t.draw(5) {
         0 => t.draw(nrings as u64) as u32,
         1 => nrings,
         2 => 255,
@@ -29,11 +36,11 @@ fn adversarial(t: &mut Tape, nrings: u32, mem: &[Region]) -> FReq {
     };
     // a user address near an existing region's edges, or anywhere
     let va = |t: &mut Tape, align: u64| -> u64 {
-        let x = if mem.is_empty() || t.chance(1, 3) {
+        let x = if mem.is_empty() || t.chance(1, 6) {
             t.lattice64()
         } else {
             let r = t.pick(mem).clone();
-            match t.draw(5) {
+            match t.draw(8) {
                 0 => r.uva,
                 1 => r.uva.wrapping_add(r.size).wrapping_sub(align),
                 2 => r.uva.wrapping_add(r.size),
